@@ -380,6 +380,13 @@ Section Store.
   Definition index_hashes (m : mem) : smap N :=        (* hash -> expected size (last in key order wins) *)
     fold_left (fun acc e => sm_ins lex_cmp acc (ihash (snd e)) (isize (snd e))) (km (idx m)) [].
 
+  (* an entry names a blob only at the canonical path of the hash its components decode to *)
+  Definition parse_canon (comps : list bytes) : option bytes :=
+    match parse_path comps with
+    | Some h => if dir_eqb comps (hexpath h) then Some h else None
+    | None => None
+    end.
+
   Definition scan_orphans (m : mem) (s : fs) (verify : bool) : ostats :=
     let ih := index_hashes m in
     let step (acc : ostats * smap unit) (pf : path * file) :=
@@ -388,7 +395,7 @@ Section Store.
       | PCas comps =>
         match comps with
         | [_; _; _] =>
-          match parse_path comps with
+          match parse_canon comps with
           | Some h =>
             let seen' := sm_ins lex_cmp seen h tt in
             match sm_get lex_cmp ih h with
